@@ -7,7 +7,8 @@ are mapped likewise (used for instrumented copies of repo files)."""
 import json, os, sys
 out = sys.argv[1]
 repo = os.environ.get("VERIF_REPO", "/repo")
-pairs = [("/verif/overlay", "")]
+home = os.environ.get("VERIF_HOME", "/verif")
+pairs = [(home + "/overlay", "")]
 for a in sys.argv[2:]:
     d, rel = a.split("=", 1)
     pairs.append((d, rel))
